@@ -1,8 +1,9 @@
 """T1 for C01/C06/C07/C11/...: regenerate the clause-ordering facts from /repo (fail-closed).
 
 Reads sqlframe/base/operations.py (Operation enum, both wrappers) and dataframe.py (decorator of
-every public method, append= flag of orderBy, the merge expression of limit, select's append default)
-and emits Gen/C01Facts.v.
+every public method, append= flag of orderBy, how orderBy turns a sort column and its `ascending` flag into an ORDER BY
+term (direction, NULL placement), the merge expression of limit, select's append default), column.py (the flags of
+Column.asc/desc/...) and emits Gen/C01Facts.v.
 """
 from __future__ import annotations
 
@@ -128,6 +129,130 @@ def order_append(tree):
     return True  # sqlglot's default
 
 
+def _strip_or_none(n):
+    """`E or None` (sqlglot reads a missing/None flag as False): the flag is E"""
+    if isinstance(n, ast.BoolOp) and isinstance(n.op, ast.Or) and len(n.values) == 2 \
+            and isinstance(n.values[1], ast.Constant) and n.values[1].value is None:
+        return n.values[0]
+    return n
+
+
+def order_key_facts(tree, src):
+    """How orderBy turns a sort column that is not already an Ordered node, and the flag `asc` it was given, into an
+    ORDER BY term: (desc as a function of asc, nulls_first as a function of asc, default of `ascending`).
+    Two shapes are read (anything else fails closed):
+      P  sqlglot.parse_one(f"{<col sql>} {'DESC' if <test> else ''}", dialect=self.session.input_dialect, into=exp.Ordered)
+         -- the text is parsed with the session's input dialect (Spark), which supplies Spark's default NULL placement
+      D  exp.Ordered(this=..., desc=<E1>, nulls_first=<E2>)   -- the flags are written out"""
+    f = py2v.find_method(tree, "BaseDataFrame", "orderBy")
+    # ascending default: `if ascending is None: ascending = [<const>] * len(columns)`
+    default = None
+    for st in ast.walk(f):
+        if isinstance(st, ast.If) and isinstance(st.test, ast.Compare) and dotted(st.test.left) == "ascending" \
+                and len(st.test.ops) == 1 and isinstance(st.test.ops[0], ast.Is) \
+                and isinstance(st.test.comparators[0], ast.Constant) and st.test.comparators[0].value is None:
+            a = st.body[0] if len(st.body) == 1 else None
+            if isinstance(a, ast.Assign) and dotted(a.targets[0]) == "ascending" and isinstance(a.value, ast.BinOp) \
+                    and isinstance(a.value.op, ast.Mult) and isinstance(a.value.left, ast.List) \
+                    and len(a.value.left.elts) == 1 and isinstance(a.value.left.elts[0], ast.Constant) \
+                    and isinstance(a.value.left.elts[0].value, bool):
+                default = a.value.left.elts[0].value
+    if default is None:
+        raise Untranslatable("orderBy: default of `ascending` (`if ascending is None: ascending = [<bool>] * len(columns)`) not found")
+    # the comprehension that builds the ORDER BY terms: (<term> if i not in pre_ordered_col_indexes else <pre-ordered>) for i, (col, asc) in ...
+    comps = [n for n in ast.walk(f) if isinstance(n, ast.ListComp) and isinstance(n.elt, ast.IfExp)]
+    if len(comps) != 1:
+        raise Untranslatable(f"orderBy: expected one list comprehension of conditional ORDER BY terms, found {len(comps)}")
+    comp = comps[0]
+    gen = comp.generators[0]
+    tgt = gen.target
+    if not (isinstance(tgt, ast.Tuple) and len(tgt.elts) == 2 and isinstance(tgt.elts[1], ast.Tuple)
+            and len(tgt.elts[1].elts) == 2 and all(isinstance(x, ast.Name) for x in tgt.elts[1].elts)):
+        raise Untranslatable("orderBy: comprehension target is not `i, (col, asc)`")
+    flag = tgt.elts[1].elts[1].id
+    test = comp.elt.test
+    if not (isinstance(test, ast.Compare) and len(test.ops) == 1 and isinstance(test.ops[0], ast.NotIn)
+            and dotted(test.comparators[0]) == "pre_ordered_col_indexes"):
+        raise Untranslatable("orderBy: the conditional is not `... if i not in pre_ordered_col_indexes else ...`")
+    term = comp.elt.body
+    tr = py2v.Tr(types={flag: "bool"}, env={}, calls={})
+    if not isinstance(term, ast.Call):
+        raise Untranslatable("orderBy: ORDER BY term is not a call")
+    callee = dotted(term.func)
+    kws = {k.arg: k.value for k in term.keywords}
+    if callee == "sqlglot.parse_one":
+        if dotted(kws.get("into")) != "exp.Ordered" or dotted(kws.get("dialect")) != "self.session.input_dialect" \
+                or len(term.args) != 1 or not isinstance(term.args[0], ast.JoinedStr):
+            raise Untranslatable("orderBy: parse_one(...) is not (f-string, dialect=self.session.input_dialect, into=exp.Ordered)")
+        parts = term.args[0].values
+        # f"{col.expression.sql(dialect=...)} {'DESC' if <test> else ''}"
+        ok = (len(parts) == 3 and isinstance(parts[0], ast.FormattedValue) and isinstance(parts[0].value, ast.Call)
+              and dotted(parts[0].value.func) == "col.expression.sql"
+              and isinstance(parts[1], ast.Constant) and parts[1].value == " "
+              and isinstance(parts[2], ast.FormattedValue) and isinstance(parts[2].value, ast.IfExp))
+        if not ok:
+            raise Untranslatable("orderBy: sort text is not f\"{col.expression.sql(...)} {<'DESC' or ''>}\"")
+        ife = parts[2].value
+        lits = (ife.body.value if isinstance(ife.body, ast.Constant) else None,
+                ife.orelse.value if isinstance(ife.orelse, ast.Constant) else None)
+        c, tc = tr.e(ife.test)
+        if tc != "bool":
+            raise Untranslatable("orderBy: direction test is not boolean")
+        if lits == ("DESC", "") or lits == ("DESC", "ASC"):
+            desc = c
+        elif lits == ("", "DESC") or lits == ("ASC", "DESC"):
+            desc = f"(negb {c})"
+        else:
+            raise Untranslatable(f"orderBy: direction words {lits}")
+        return {"shape": "text parsed with the input dialect", "flag": flag, "desc": desc,
+                "nulls_first": f"(spark_text_nulls_first {desc})", "default": default, "hash": py2v.src_hash(f, src)}
+    if callee == "exp.Ordered":
+        if term.args or set(kws) - {"this", "desc", "nulls_first"} or "this" not in kws:
+            raise Untranslatable("orderBy: exp.Ordered(...) with other arguments")
+        if "nulls_first" not in kws:
+            raise Untranslatable("orderBy: exp.Ordered without nulls_first (the NULL placement would be the engine's default)")
+        desc, td = tr.e(_strip_or_none(kws["desc"])) if "desc" in kws else ("false", "bool")
+        nf, tn = tr.e(_strip_or_none(kws["nulls_first"]))
+        if td != "bool" or tn != "bool":
+            raise Untranslatable("orderBy: desc / nulls_first are not boolean")
+        return {"shape": "exp.Ordered built directly", "flag": flag, "desc": desc, "nulls_first": nf, "default": default,
+                "hash": py2v.src_hash(f, src)}
+    raise Untranslatable(f"orderBy: ORDER BY term built by {callee}")
+
+
+ORDER_METHODS = ["asc", "asc_nulls_first", "asc_nulls_last", "desc", "desc_nulls_first", "desc_nulls_last"]
+
+
+def column_order_methods(tree):
+    """Column.asc / desc / asc_nulls_first / ...: (desc, nulls_first) of the exp.Ordered node each builds; `name = other` aliases"""
+    cls = py2v.find_class(tree, "Column")
+    out = {}
+    for st in cls.body:
+        if isinstance(st, ast.FunctionDef) and st.name in ORDER_METHODS:
+            calls = [n for n in ast.walk(st) if isinstance(n, ast.Call) and dotted(n.func) == "exp.Ordered"]
+            if len(calls) != 1:
+                raise Untranslatable(f"Column.{st.name}: expected one exp.Ordered(...), found {len(calls)}")
+            kws = {k.arg: k.value for k in calls[0].keywords}
+            vals = []
+            for key in ("desc", "nulls_first"):
+                v = kws.get(key)
+                if not (isinstance(v, ast.Constant) and isinstance(v.value, bool)):
+                    raise Untranslatable(f"Column.{st.name}: {key}= is not a literal bool")
+                vals.append(v.value)
+            out[st.name] = tuple(vals)
+    for st in cls.body:
+        if isinstance(st, ast.Assign) and len(st.targets) == 1 and isinstance(st.targets[0], ast.Name) \
+                and st.targets[0].id in ORDER_METHODS:
+            src_name = dotted(st.value)
+            if src_name not in out:
+                raise Untranslatable(f"Column.{st.targets[0].id} = {src_name}: not an ordering method")
+            out[st.targets[0].id] = out[src_name]
+    missing = [m for m in ORDER_METHODS if m not in out]
+    if missing:
+        raise Untranslatable(f"Column ordering methods not found: {missing}")
+    return out
+
+
 def limit_merge(tree, src):
     f = py2v.find_method(tree, "BaseDataFrame", "limit")
     body = [s for s in f.body if not (isinstance(s, ast.Expr) and isinstance(s.value, ast.Constant))]
@@ -198,6 +323,9 @@ def generate(repo: str):
     oa = order_append(df_tree)
     lm, lm_hash = limit_merge(df_tree, df_src)
     sa = select_append_default(df_tree)
+    ok = order_key_facts(df_tree, df_src)
+    col_tree, _ = py2v.load(os.path.join(repo, "sqlframe/base/column.py"))
+    com = column_order_methods(col_tree)
     for n, m in NAMES.items():
         if decos.get(m) is None:
             raise Untranslatable(f"method {m} has no @operation decorator")
@@ -229,6 +357,15 @@ def generate(repo: str):
                         if not m.startswith("__")))
     L.append("].")
     L.append(f"Definition group_agg_kind : option opk := {('Some ' + gdecos['agg']) if gdecos.get('agg') else 'None'}.")
+    # direction / NULL placement of the ORDER BY terms orderBy builds from a sort column and its `ascending` flag
+    L.append("(* environment: a sort key written as SQL text and parsed with the session's input dialect (Spark) gets Spark's "
+             "default NULL placement: ASC -> NULLS FIRST, DESC -> NULLS LAST *)")
+    L.append("Definition spark_text_nulls_first (desc : bool) : bool := negb desc.")
+    L.append(f"Definition order_flag_desc ({ok['flag']} : bool) : bool := {ok['desc']}.")
+    L.append(f"Definition order_flag_nulls_first ({ok['flag']} : bool) : bool := {ok['nulls_first']}.")
+    L.append(f"Definition order_default_asc : bool := {'true' if ok['default'] else 'false'}.")
+    L.append("Definition column_order_methods : list (string * (bool * bool)) := [" + "; ".join(
+        f'("{m}"%string, ({str(com[m][0]).lower()}, {str(com[m][1]).lower()}))' for m in ORDER_METHODS) + "].")
     facts = [
         {"name": "rank", "from": "operations.py: class Operation", "value": vals},
         {"name": "wrap_needed_df", "from": "operations.py: operation.wrapper", "hash": w_df["hash"], "text": w_df["test"]},
@@ -240,5 +377,8 @@ def generate(repo: str):
         {"name": "select_append_default", "value": sa},
         {"name": "limit_merge", "from": "dataframe.py: limit", "hash": lm_hash, "text": lm},
         {"name": "decorator_table", "value": {m: k for m, k in decos.items() if not m.startswith("_")}},
+        {"name": "order_flag_desc / order_flag_nulls_first / order_default_asc", "from": "dataframe.py: orderBy (" + ok["shape"] + ")",
+         "hash": ok["hash"], "text": f"desc = {ok['desc']}; nulls_first = {ok['nulls_first']}; default ascending = {ok['default']}"},
+        {"name": "column_order_methods", "from": "column.py: Column.asc/desc/...", "value": {m: list(v) for m, v in com.items()}},
     ]
     return "\n".join(L) + "\n", facts
